@@ -84,7 +84,11 @@ def main() -> int:
                                                    "impl_eq_model": v["impl_eq_model"], "seed": seed, "tier": a.tier,
                                                    "others": len(violations) - 1})
         rc = 1
-    elif ctx.disagreements or problems:
+    elif ctx.disagreements or problems or len(ctx.unstable) > max(2, 0.002 * ctx.evaluations):
+        if not ctx.disagreements and not problems:
+            # float-unstable cases are tolerated only while they are rare; more than that is a disagreement
+            ctx.disagreements = list(ctx.unstable)
+            ctx.notes.append("float-unstable cases exceed 0.2% of the evaluations: treated as disagreements")
         first = ctx.disagreements[0] if ctx.disagreements else None
         replay_path = framework.write_replay(pid, {
             "property": pid, "kind": "not-shown",
